@@ -104,7 +104,7 @@ class Prop(BaseProp):
             ctx.expect(Xc is not X and np.array_equal(Xc.spikes, X.spikes) and not np.shares_memory(Xc.spikes, X.spikes)
                        and Xc.t_start == X.t_start and Xc.t_end == X.t_end,
                        "identity:copy", "SpikeTrain.copy is not an independent equal copy (spikes %s on [%r,%r] vs %s on [%r,%r])"
-                       % (common.short(Xc.spikes.tolist()), Xc.t_start, Xc.t_end, common.short(X.spikes.tolist()), X.t_start, X.t_end))
+                       % (common.short(common.tl(Xc.spikes)), Xc.t_start, Xc.t_end, common.short(common.tl(X.spikes)), X.t_start, X.t_end))
             d = ctx.call(ps.isi_distance, X, Xc, interval=ivt, **kw_isi)
             ctx.expect(d == 0.0, "identity:isi", "isi_distance(a, copy(a)) = %r" % d)
             d = ctx.call(ps.spike_distance, X, Xc, interval=ivt, **kw_spk)
